@@ -765,7 +765,26 @@ impl Formatter {
         </div>", block_id, block_class, style_attr, namespace_str, src, output_node)
       }
     } else {
-      format!("```mech{}\n{}\n```", src, format!(":{}", disabled_tag))
+      let tag = if block.config.disabled {
+        ":disabled".to_string()
+      } else if block.config.hidden {
+        ":hidden".to_string()
+      } else if !namespace_str.is_empty() {
+        format!(":{}", namespace_str)
+      } else {
+        "".to_string()
+      };
+      let options = match &block.options {
+        Some(option_map) if !option_map.elements.is_empty() => {
+          let opts = option_map.elements.iter()
+            .map(|(k, v)| format!("{}: \"{}\"", k.to_string(), v.to_string().trim_matches('"')))
+            .collect::<Vec<String>>()
+            .join(", ");
+          format!(" {{{}}}", opts)
+        }
+        _ => "".to_string(),
+      };
+      format!("```mech{}{}\n{}```\n", tag, options, src)
     }
   }
 
